@@ -271,6 +271,37 @@ func genC04(r *vc.Run) {
 	}
 	// chain of two resharings, then a signature (EdDSA)
 	chainEdDSA(r, g)
+	// mirrored values in transit (a negated share, the announced public key with the other square root) must stop the run:
+	// a check that compares x coordinates only accepts exactly these
+	for _, fr := range faultRunners() {
+		if fr.proto != "ecdsa_resharing" && fr.proto != "eddsa_resharing" {
+			continue
+		}
+		pubY := "ecdsa_pub_y"
+		if fr.proto == "eddsa_resharing" {
+			pubY = "eddsa_pub_x" // on the Edwards curve the mirrored point has the other x
+		}
+		// the share is covered by the share check (somebody must object); the announced public key is the one of old member 0 (the
+		// new members take the key from that member's message), so the mirrored key must either stop the run or not be saved
+		for _, f := range []fault{{fr.proto, "O1", "DGRound3Message1", "share", 0, "negate"}, {fr.proto, "O0", "DGRound1Message", pubY, 0, "negate-p"}} {
+			res := runFault(fr, f, r.Seed+23)
+			r.Dist["mirrored-value/"+fr.proto]++
+			r.CountCase(f.String(), res.Applied > 0, fmt.Sprintf("%s => finished=%v culprits=%v", f.String(), res.Finished, res.Culprits))
+			newFinished := 0
+			for _, n := range res.Finished {
+				if strings.HasPrefix(n, "N") {
+					newFinished++
+				}
+			}
+			if res.BadOutput != "" {
+				r.Violate("reshare-mirrored-value-accepted|"+fr.proto+"|"+f.Field, "resharing completed with inconsistent key data although a mirrored value was sent: "+res.BadOutput, f.String())
+			} else if res.Applied > 0 && f.Field == "share" && len(res.Culprits) == 0 {
+				r.Violate("reshare-mirrored-value-accepted|"+fr.proto+"|"+f.Field, "a negated share was sent and nobody objected", f.String())
+			} else if res.Applied > 0 && f.Field != "share" && newFinished > 0 {
+				r.Violate("reshare-mirrored-value-accepted|"+fr.proto+"|"+f.Field, "new members completed a resharing in which old member 0 announced the mirrored public key", f.String())
+			}
+		}
+	}
 }
 
 func signWithNewEdDSA(r *vc.Run, rr *reshareRun, newT int, pub [2]*big.Int, replay string) {
